@@ -22,7 +22,8 @@ CONSTANTS SeedLeaves,     \* arithmetic seeds: +,* trees with at most this many 
           PropMembers,    \* conj/disj seeds: member sets of at most this size
           MaxMembers,     \* conj/disj states have at most this many leaves
           MaxNnfSize,     \* growth of nnf states stops at this size
-          Rich            \* more leaves / literals / special seeds
+          MaxNum,         \* numerals created by FoldNum stay below this
+          Rich            \* more literals / special seeds
 
 N0 == <<"n", 0>>   N1 == <<"n", 1>>
 \* ------------------------------------------------------------------ arithmetic actions at the root of t
@@ -100,16 +101,21 @@ NnfSteps(t) == NnfRoot(t) \cup
      [] OTHER -> {})
 
 \* ------------------------------------------------------------------ one step of the machine (growth is size-bounded)
+RECURSIVE MaxNumOf(_)
+MaxNumOf(x) == CASE x[1] = "n" -> x[2]
+                 [] Bin2(x) -> (LET a == MaxNumOf(x[2]) b == MaxNumOf(x[3]) IN IF a > b THEN a ELSE b)
+                 [] x[1] \in {"neg", "^", "S"} -> MaxNumOf(x[2])
+                 [] OTHER -> 0
 Steps(m, T, x) ==
-  CASE m = "arith" -> LET n == LeafCount(x) IN
-                      { y \in ArithSteps(x, T = "ring") : (LeafCount(y) <= MaxLeaves \/ LeafCount(y) <= n) /\ Mag(y) < 10000 }
+  CASE m = "arith" -> LET n == LeafCount(x) k == MaxNumOf(x) IN
+                      { y \in ArithSteps(x, T = "ring") : (LeafCount(y) <= MaxLeaves \/ LeafCount(y) <= n) /\ (MaxNumOf(y) <= MaxNum \/ MaxNumOf(y) <= k) }
     [] m = "conj" -> { y \in ACSteps(x, "and") : ACLeaves(y, "and") <= MaxMembers }
     [] m = "disj" -> { y \in ACSteps(x, "or") : ACLeaves(y, "or") <= MaxMembers }
     [] m = "nnf" -> { y \in NnfSteps(x) : PSize(y) <= MaxNnfSize \/ PSize(y) <= PSize(x) }
 
 \* ------------------------------------------------------------------ seeds
 vx == <<"v", "x">>  vy == <<"v", "y">>  vz == <<"v", "z">>
-ArithLeaves == { vx, vy, N0, N1, <<"n", 2>> } \cup (IF Rich THEN { vz, <<"n", 3>> } ELSE {})
+ArithLeaves == { vx, vy, N0, N1, <<"n", 2>> }
 RECURSIVE Trees(_)
 Trees(n) == IF n = 1 THEN ArithLeaves
             ELSE UNION { { <<c, a, b>> : c \in {"+", "*"}, a \in Trees(k), b \in Trees(n - k) } : k \in 1..(n - 1) }
